@@ -4,6 +4,8 @@ import GrafeoModel.Driver.Tx
 import GrafeoModel.Driver.Rdf
 import GrafeoModel.Driver.Wal
 import GrafeoModel.Driver.Ops
+import GrafeoModel.Driver.Val
+import GrafeoModel.Driver.Exec
 
 /-!
 `gdriver`: reads op lines `<stream> <op> <arg>*` on stdin, writes one line per op:
@@ -31,6 +33,14 @@ def dispatch (st : DState) (line : String) : DState × String :=
       | none => (st, "bad-op")
     else if stream == "ops" then
       match DriverOps.handle args with
+      | some o => (st, o.render)
+      | none => (st, "bad-op")
+    else if stream == "val" then
+      match DriverVal.handle args with
+      | some o => (st, o.render)
+      | none => (st, "bad-op")
+    else if stream == "exec" then
+      match DriverExec.handle args with
       | some o => (st, o.render)
       | none => (st, "bad-op")
     else if stream == "tx" then
